@@ -56,6 +56,37 @@ def stepped(rep, comp, step_module, trace_module, binary, sub, quick, seed, labe
                 break
 
 
+def storms(rep, binary, comp, trace_module, quick):
+    """Unsynchronised rounds (k blocking operations + k operations that enable them, released from a barrier) observed at
+    ONE final quiescent point; the histories of every round that still has a blocked operation, and a sample of the others,
+    are judged by TLC (LinTraceStrict: nothing enabled may be blocked at a quiescent point)."""
+    import concurrent.futures as cf
+    rounds = 3000 if quick else 30000
+    # k <= 3: the 2k operations of a round are all concurrent, and TLC searches their linearization orders
+    plans = [("consume", 2, 4), ("consume", 3, 2), ("consume", 3, 8), ("produce", 2, 4), ("produce", 3, 2)]
+    hists, total = [], 0
+    with cf.ThreadPoolExecutor(max_workers=5) as ex:
+        futs = [ex.submit(harness.run, binary, ["storm", str(rounds), str(k), str(p), sc, comp], None, 900) for (sc, k, p) in plans]
+        for (sc, k, p), f in zip(plans, futs):
+            rc, outs, err = f.result()
+            summ = next((o for o in outs if "storm" in o), None)
+            if summ is None:
+                if harness.crash_origin(err) == "library":
+                    rep.violation(comp + "/storm/process-crash", err[-1500:], dict(storm=[sc, k, p], stderr=err[-3000:]))
+                else:
+                    rep.infra_error("%s storm %s produced no result: %s" % (comp, (sc, k, p), err[-400:]))
+                continue
+            if summ.get("inconclusive"):
+                rep.cov["inconclusive"] = rep.cov.get("inconclusive", 0) + 1
+                continue
+            total += rounds
+            hists += [o["hist"] for o in outs if "hist" in o]
+    rep.cov["storm_rounds"] = rep.cov.get("storm_rounds", 0) + total
+    if hists:
+        trace.validate_all(rep, comp, trace_module, "LinTraceStrict.cfg", hists, label=comp + "/storm", shards=4,
+                           key_fn=qcommon.lin_key(comp))
+
+
 def run(rep, tier, seed, replay_file=None):
     quick = tier == "quick"
     rep.assumptions += [
@@ -78,11 +109,14 @@ def run(rep, tier, seed, replay_file=None):
         futs = [ex.submit(queue_models), ex.submit(c07_deque.models, rep, tier)]
         stepped(rep, "queue", "QueueStep", "QueueLinTrace", qbin, "sched", quick, seed, "queue")
         c07_deque.stepped(rep, tier, seed)
+        storms(rep, qbin, "queue", "QueueLinTrace", quick)
+        storms(rep, qbin, "deque", "DequeLinTrace", quick)
         for f in futs:
             f.result()
     rep.cov["rule"] = ("driver schedules from QueueStep/DequeStep (edge cover + random; quick: all of <= 4 steps + a seeded sample), "
                        "executed on the real container with every blocking operation in its own goroutine and observation at "
                        "quiescence; BURST steps are issued without waiting for quiescence (several Adds / Add+Cancel / Remove+Close "
                        "before a woken goroutine runs; run with GOMAXPROCS 1 and 4); the recorded history is validated by the "
-                       "LinTrace spec with StrictQuiet (no enabled operation may be blocked at a quiescent point); non-trivial = "
-                       "history longer than 4 events")
+                       "LinTrace spec with StrictQuiet (no enabled operation may be blocked at a quiescent point); STORMS: unsynchronised rounds (k blocking operations + k enabling "
+                       "ones from a barrier) observed at one final quiescent point, every round with a blocked operation judged by "
+                       "TLC; non-trivial = history longer than 4 events")
